@@ -37,6 +37,10 @@ pub struct SymState {
     script: Vec<bool>,
     pub trace: Vec<bool>,
     pub conds: Vec<Cond>,
+    /// the concrete inputs of the case that triggered the exploration, and the inputs whose concrete value the code
+    /// asked for (index arguments, relation codes): those are constants of the generated lemmas
+    concrete: Vec<BigRat>,
+    pub concretized: std::collections::BTreeMap<u32, BigRat>,
 }
 
 thread_local! {
@@ -52,12 +56,29 @@ pub fn on() -> bool {
     ON.with(|c| c.get())
 }
 
-pub fn begin(script: &[bool]) {
+pub fn begin(script: &[bool], concrete: &[BigRat]) {
     ON.with(|c| c.set(true));
     SS.with(|s| {
         let mut s = s.borrow_mut();
         *s = SymState::default();
         s.script = script.to_vec();
+        s.concrete = concrete.to_vec();
+    })
+}
+
+/// the concrete value of input i (the code needs it as a number: an index, a count, a selector)
+pub fn concretize(i: u32) -> BigRat {
+    SS.with(|s| {
+        let mut s = s.borrow_mut();
+        let v = match s.concrete.get(i as usize) {
+            Some(v) => v.clone(),
+            None => {
+                drop(s);
+                unsupported("concrete value of a symbolic scalar");
+            }
+        };
+        s.concretized.insert(i, v.clone());
+        v
     })
 }
 
